@@ -99,16 +99,26 @@ impl<'a> Evaluator<'a> for RpslEvaluator {
     }
 
     fn sink_error(&mut self, err: &(dyn std::error::Error + Send + Sync + 'static)) -> bool {
-        if let Some(irrc::Error::ResponseErr(
-            Query::Ipv4Routes(_) | Query::Ipv6Routes(_),
-            irrc::error::Response::KeyNotFound,
-        )) = err.downcast_ref()
-        {
-            tracing::debug!("{err:#}");
-        } else {
-            tracing::warn!("{err:#}");
+        match err.downcast_ref() {
+            // an AS without routes in one address family is not an error
+            Some(irrc::Error::ResponseErr(
+                Query::Ipv4Routes(_) | Query::Ipv6Routes(_),
+                irrc::error::Response::KeyNotFound,
+            )) => {
+                tracing::debug!("{err:#}");
+                true
+            }
+            // skip individual items that cannot be parsed
+            Some(irrc::Error::ParseItem(..)) => {
+                tracing::warn!("{err:#}");
+                true
+            }
+            // anything else means the data could not be obtained: abort the evaluation
+            _ => {
+                tracing::warn!("{err:#}");
+                false
+            }
         }
-        true
     }
 }
 
